@@ -60,6 +60,13 @@ CHECKS = {
    note="Partial: FindCachedRules, expiry and two-writer memory/storage agreement are refuted (known findings); composite requests (ProcessEvent, RemRule, EnableRule) are not proved atomic and their non-linearizable histories are accepted "
         "as a known class; races, crashes and deadlock are only observed. Trusted: the syntactic extractor, the Go race detector and runtime, the flattening of control flow into access lists.",
    technique="Lean 4 proof (refinement to an atomic-section machine) + lock-discipline table regenerated from the Go source + race-detector stress + linearizability checking", ref="5 (C12)"),
+ "C13": dict(
+   text="Lean 4 theorems (Props/C13.lean, 18) over a lock-aware wrapper of the State/Location model: never-blocks and lock-free-unless-panic are proved for every public operation and, by induction, every history; the lock discipline (which methods defer their unlock) and the set "
+        "of panic sites (unchecked assertions, explicit panics, constant indexes) are tied to tables regenerated from the Go source on every run (rfl against the accounted tables, each row classified); negative theorems give concrete witnesses for the listed panic sites. "
+        "A differential malformed-input run (reserved key x wrong type x role, ?-strings as data and keys, empty/deep containers, heterogeneous arrays) with canary operations goes through core (both states), the System and the HTTP service.",
+   note="Partial: no_panic_off_sites is proved only for the indexed remove, search and rule search; validated_paths_safe holds only without JSON null; the site classification reasons are read, not proved; nil dereferences, stack overflow and time bounds are only searched at run time "
+        "(watchdog, bounded stack); the expiry-purge panic inside cascades is outside the model. Eight genuine defects are replayed as known findings.",
+   technique="Lean 4 proof over a hand-written model + panic-site and lock tables regenerated from the Go source + differential robustness run with canaries", ref="5 (C13)"),
  "C14": dict(
    text="Lean 4 theorems (Props/C14.lean, 11, audited each run) about an interleaving model of core.RunJavascript's watchdog protocol (caller goroutine, watchdog goroutine, timer, Interrupt cap 1, watchdogCleanup as coded / as repaired), "
         "for all schedules by induction with invariants decided over the finite control state: fast path clean and terminating, errors never success, timeout-selection table, the repaired protocol's termination and never-blocked theorems "
